@@ -290,7 +290,7 @@ def floors(tier):
     cells += [('callbacks', k) for k in ('write', 'indexed', 'resize')] + [('callbacks-changed',)]
     cells += [('reset', True), ('propagation', 'binary'), ('propagation', 'function'), ('propagation', 'numpy'), ('propagation', 'method'),
               ('propagation', 'Fxp(x)'), ('propagation', 'Fxp(x, like=)'), ('huge-integer-write',), ('propagation-workload', 'configured-output'),
-              ('reduction-flags', 'beyond-int64'), ('reduction-flags', 'moderate'), ('complex-write-workload',), ('complex-write-judged',), ('fresh-callbacks',), ('reduction-inaccuracy-kept',)]
+              ('reduction-flags', 'beyond-int64'), ('reduction-flags', 'moderate'), ('complex-write-workload',), ('complex-write-judged',), ('fresh-callbacks',), ('reduction-inaccuracy-kept',), ('derived-then-written',)]
     return cells
 
 
@@ -375,7 +375,7 @@ def run_case(case, ctx):
                 out.append(float(v))
             return out
         for step in range(rng.randint(1, 8)):
-            c = rng.choice(['write', 'write', 'write', 'indexed', 'indexed', 'reset', 'resize', 'read', 'write_fxp', 'like_ctor', 'callbacks'])
+            c = rng.choice(['write', 'write', 'write', 'indexed', 'indexed', 'reset', 'resize', 'read', 'write_fxp', 'like_ctor', 'callbacks', 'derived'])
             if c == 'callbacks':
                 # the registered callbacks change in the middle of the history: one more is appended, one is removed, or the list is replaced;
                 # the next writes must notify exactly the callbacks registered at that time
@@ -389,6 +389,31 @@ def run_case(case, ctx):
                     x.callbacks = [CallbackRecorder(ctx.mon.cb_log)]
                 ctx.floor_hit(('callbacks-changed',))
                 c = 'write'
+            if c == 'derived':
+                # an object derived from x by an operator is written afterwards (flag-raising write): x's own record keeps telling x's own history, and the
+                # callbacks registered on x are not notified of the other object's writes.  Workload-level (the later write's event only sees the derived object)
+                how = rng.choice(['invert', 'and', 'or', 'xor', 'neg', 'add', 'lshift', 'like', 'deepcopy', 'getitem_copy'])
+                try:
+                    z = {'invert': lambda: ~x, 'and': lambda: x & 1, 'or': lambda: x | 2, 'xor': lambda: x ^ 1, 'neg': lambda: -x, 'add': lambda: x + 0, 'lshift': lambda: x << 0,
+                         'like': lambda: Fxp(0, like=x), 'deepcopy': lambda: x.deepcopy(), 'getitem_copy': lambda: x[[0, 1]] if rank == 1 else x.deepcopy()}[how]()
+                except Exception:
+                    continue
+                st0 = dict(x.status)
+                n0 = len([1 for c_, oid in ctx.mon.cb_log if oid == id(x)])
+                mon_was = ctx.mon.enabled
+                try:
+                    big = float(z.upper) * 4 + 1.3
+                    z(big) if np.ndim(z.val) == 0 else z.set_val(np.full(np.shape(z.val), big))
+                except Exception:
+                    pass
+                st1 = dict(x.status)
+                n1 = len([1 for c_, oid in ctx.mon.cb_log if oid == id(x)])
+                if st1 != st0 or n1 != n0:
+                    ctx.violation('foreign_write', 'after z = <%s of x>, an overflowing write into z changed x\'s status record %r -> %r / notified x\'s callbacks %d times as x' % (how, st0, st1, n1 - n0),
+                                  key='status.shared_with_derived')
+                ctx.judged(('derived-then-written', how), True, None)
+                ctx.floor_hit(('derived-then-written',))
+                continue
             if c == 'write_fxp':
                 # a write whose value is another (exact, fitting) Fxp must not clear a raised flag either
                 lo_, hi_ = R.code_range(x.signed, x.n_word)
